@@ -26,10 +26,13 @@ func init() {
 	Recorders["conc"] = recordConc
 }
 
-var concTexts = []string{"a + b * 2", "$t = a, $t + b", "a + b"}
+var concTexts = []string{"a + b * 2", "$t = a, $t + b", "a + b", "[regexp(s1, 'ab'), regexp(s2, '^(a)*$'), regexp(s2, 'ab')]"}
+var concParseTexts = []string{"'\\u4F11\\u4F34'+'\\x41'", "'\\u0041\\x62\\u4e2d'", "1 +\n (2 *"}
 var concDatas = mustParse(`<< [a |-> <<"int", 1>>, b |-> <<"int", 2>>],
   [a |-> <<"dec", FALSE, <<1>>, 1>>, b |-> <<"f64", FALSE, <<5>>, -1>>],
-  [a |-> <<"int64", FALSE, <<9,0,0,7,1,9,9,2,5,4,7,4,0,9,9,3>>>>, b |-> <<"int", -3>>] >>`).([]any)
+  [a |-> <<"int64", FALSE, <<9,0,0,7,1,9,9,2,5,4,7,4,0,9,9,3>>>>, b |-> <<"int", -3>>],
+  [s1 |-> <<"str", <<99,97,98>>>>, s2 |-> <<"str", <<97,97,97>>>>],
+  [s1 |-> <<"str", <<98,97>>>>, s2 |-> <<"str", <<97,98>>>>] >>`).([]any)
 
 var (
 	sharedOnce  sync.Once
@@ -192,6 +195,7 @@ func concWorkloadsByGates(pcs []any) []any {
 		"[6 6]":   `<< <<"eval", 2, 1>>, <<"eval", 2, 3>> >>`,
 		"[3 3 3]": `<< <<"eval", 3, 1>>, <<"eval", 3, 2>>, <<"eval", 3, 3>> >>`,
 		"[5 3 6]": `<< <<"eval", 1, 3>>, <<"eval", 3, 2>>, <<"eval", 2, 1>> >>`,
+		"[13 13]": `<< <<"eval", 4, 4>>, <<"eval", 4, 5>> >>`,
 	}
 	s, ok := m[key]
 	if !ok {
@@ -244,7 +248,12 @@ func recordConc(args []string) int {
 			for it := 0; it < *iters; it++ {
 				ti := (g + it) % len(trees)
 				var w, o any
-				switch (g + it/7) % 4 {
+				switch (g + it/7) % 5 {
+				case 4: // parsing texts with escapes while others parse and evaluate
+					pi := (g + it) % len(concParseTexts)
+					obs, _ := ParseObserve(concParseTexts[pi])
+					w = []any{"parse", int64(pi + 1)}
+					o = obs
 				case 3: // analysis of the shared tree + parsing and formatting errors of other texts
 					all, e1 := formula.ResolveReferenceFields(trees[ti])
 					nl, e2 := formula.ResolveReferenceFieldsNotLocal(trees[ti])
@@ -257,7 +266,10 @@ func recordConc(args []string) int {
 						o = []any{"BROKEN", "re-parse failed"}
 					}
 				default:
-					di := (g*3 + it) % len(concDatas)
+					di := (g*3 + it) % 3
+					if ti == 3 {
+						di = 3 + (g+it)%2 // the regexp formula reads s1, s2
+					}
 					dm, err := data.BuildMap(concDatas[di], nil)
 					if err != nil {
 						o = []any{"BROKEN", err.Error()}
